@@ -16,7 +16,12 @@ THEOREMS = ["C04.bias_params", "C04.fixed_ranges", "C04.shared_params_kept",
             "C04.tensorQuantParams_wellformed", "C04.ref_params_wellformed", "C04.handed_params", "C04.same_as_input", "C04.same_as_input_srq",
             "C04.concat_same_as_output", "C04.bias_request", "C04.fixed_range_output", "C04.dispatch_table", "C04.dispatch_rules",
             "C04.dispatch_bias", "C04.Ex.w_request", "C04.Ex.x_request", "C04.Ex.stale_stats_ignored",
-            "C04.Ex.const_data_operand_per_channel", "C04.Ex.channelwise_activation_witness"]
+            "C04.Ex.const_data_operand_per_channel", "C04.Ex.channelwise_activation_witness",
+            # C04c: END TO END on the output model of quantizePure
+            "C04.quantized_tensor_params", "C04.param_kinds", "C04.stats_in_force", "C04.stats_given", "C04.stats_in_force_unique",
+            "C04.output_params_wellformed", "C04.per_channel_only_weights_in_output", "C04.same_scale_ops_in_output",
+            "C04.same_scale_const_operand_in_output", "C04.concat_inputs_in_output", "C04.fixed_range_in_output", "C04.bias_in_output",
+            "C04.bias_values", "C04.E2E.const_operand_ids_differ"]
 
 
 def recompute_stats(case):
@@ -58,9 +63,16 @@ def run(ctx):
                        "bias_request) with the dispatch of each operator checked against the regenerated registry table. Witnessed "
                        "non-properties kept in the file: a CONSTANT data operand of FULLY_CONNECTED gets per-channel parameters "
                        "(Ex.const_data_operand_per_channel; such models are not generated, see DESIGN), a CHANNELWISE activation config would "
-                       "put a quantized dimension on a runtime tensor (the shipped policy never produces one). The statements are at the level "
-                       "of the per-operator materialisation; their lifting through the whole generate loop is covered by execution.")
-    common.proof_side(ctx, THEOREMS, modules=["QProps.C04", "QProps.C04b", "QProps.C17", "QProps.C17b"])
+                       "put a quantized dimension on a runtime tensor (the shipped policy never produces one). END TO END (C04c): every "
+                       "tensor of quantizePure's output that carries parameters -- originals, constants, outputs of inserted QUANTIZE ops -- "
+                       "carries (values-equal to) the reference formula on the statistics IN FORCE when its producer / reader was materialised "
+                       "(the caller's entry, or what a same-as-input / fixed-range operator wrote back), or lent parameters, the fixed range, or "
+                       "quantizeBias of the reader's data and weight parameters (quantized_tensor_params, param_kinds, stats_in_force); all are "
+                       "well formed or biases (output_params_wellformed); per-channel only on constants of weight operators on the kernel's "
+                       "dimension or on biases (per_channel_only_weights_in_output); same-scale operators, concatenation, fixed ranges and the "
+                       "bias rule as they appear in the output model (same_scale_ops_in_output, concat_inputs_in_output, fixed_range_in_output, "
+                       "bias_in_output, bias_values).")
+    common.proof_side(ctx, THEOREMS, modules=["QProps.C04", "QProps.C04b", "QProps.C04c", "QProps.C17", "QProps.C17b"])
     drv = common.Driver()
 
     def per_case(case, res):
